@@ -204,6 +204,9 @@ func (mo *mergeOp) FullMerge(key, existing []byte, operands [][]byte) ([]byte, b
 	cur := existing
 	isNil := existing == nil
 	for _, o := range operands {
+		if len(o) == 1 && o[0] == '?' {
+			return nil, false // a merge that fails (only the sync family's merge-error scenario writes it)
+		}
 		if len(o) == 1 && o[0] == '!' {
 			cur = nil
 			isNil = true
